@@ -160,3 +160,46 @@ N("C18", "setattr marker", REG, "    func._decoder = True\n", '    setattr(func,
 B("C07", "decode_end bookkeeping under a depth guard", MD, "                decode_end = hit.end + offset\n                self.scan_node(hit, depth_limit - 1)\n", "                if depth_limit > 1:\n                    decode_end = hit.end + offset\n                    self.scan_node(hit, depth_limit - 1)\n", "R3-control-independence")
 N("C07", "skip the recursive call that would return at once", MD, "                self.scan_node(hit, depth_limit - 1)\n", "                if depth_limit > 1:\n                    self.scan_node(hit, depth_limit - 1)\n")
 B("C07", "skip the recursive call one level too early", MD, "                self.scan_node(hit, depth_limit - 1)\n", "                if depth_limit > 2:\n                    self.scan_node(hit, depth_limit - 1)\n", "R3-control-independence")
+
+# ------------------------------------------------------------------ C20
+B("C20", "key dropped from node_to_dict", JS, '        "obfuscation": node.obfuscation,\n', "", "R1-fields")
+B("C20", "end written from start", JS, '"end": node.end,', '"end": node.start,', "R1-fields")
+B("C20", "field dropped from __eq__", NODE, "            and self.obfuscation == other.obfuscation\n", "", "R1-fields/node.Node.__eq__/fields")
+B("C20", "or for one and in __eq__", NODE, "and self.end == other.end", "or self.end == other.end", "R1-fields/node.Node.__eq__/conjunction")
+B("C20", "children not compared", NODE, "            and self.children == other.children\n", "", "R1-fields/node.Node.__eq__/fields")
+B("C20", "default= re-introduced", JS, "return as_node(json.loads(serialized, **kargs))", "return json.loads(serialized, default=as_node, **kargs)", "R2-json-api")
+B("C20", "object_hook instead of top-down rebuild", JS, "return as_node(json.loads(serialized, **kargs))", "return json.loads(serialized, object_hook=as_node, **kargs)", "R2-json-api")
+B("C20", "parent not passed in as_node", JS, "[as_node(child, node) for child in d[\"children\"]]", "[as_node(child) for child in d[\"children\"]]", "R1-fields/json_conversion.as_node/children")
+B("C20", "value not hex-decoded", JS, 'value=bytes.fromhex(d["value"]),', 'value=d["value"].encode(),', "R1-fields/json_conversion.as_node/value")
+B("C20", "start read from end", JS, 'start=d["start"],', 'start=d["end"],', "R1-fields/json_conversion.as_node/start")
+B("C20", "CLI opens in text mode", MAIN, 'with open(args.filepath, "rb") as f:', 'with open(args.filepath, "r") as f:', "R3-cli/__main__.main/input-bytes")
+B("C20", "CLI reads text stdin", MAIN, "data = sys.stdin.buffer.read()", "data = sys.stdin.read()", "R3-cli/__main__.main/input-bytes")
+B("C20", "--json prints the children only", MAIN, "print(tree_to_json(tree))", "print(tree_to_json(tree.children))", "R3-cli/__main__.main/--json")
+B("C20", "CLI scans with a custom depth", MAIN, "tree = md.scan(data)", "tree = md.scan(data, 5)", "R3-cli/__main__.main/tree-is-library-scan")
+B("C20", "summary skips untyped nodes", QUERY, 'return [make_label(node) + " " + repr(node.value)[2:-1] for node in tree]', 'return [make_label(node) + " " + repr(node.value)[2:-1] for node in tree if node.type]', "R3-cli/query.string_summary")
+B("C20", "label not reversed", QUERY, 'return "/".join(label_list[::-1])', 'return "/".join(label_list)', "R3-cli/query.make_label")
+B("C20", "label drops obfuscation of untyped nodes", QUERY, "        if node.obfuscation:\n            label_list.append(\">\" + node.obfuscation)\n", "        if node.type and node.obfuscation:\n            label_list.append(\">\" + node.obfuscation)\n", "R3-cli/query.make_label")
+B("C20", "--replace flattens the root value", MAIN, "squash_replace(data, tree.children)", "squash_replace(data, tree.children[:1])", "R4-replace")
+B("C20", "iteration post-order", NODE, "                yield child\n                yield from node_generator(child)\n", "                yield from node_generator(child)\n                yield child\n", "R3-cli/node.Node.__iter__")
+B("C20", "constructor forgets to pair supplied children", NODE, "            for child in children:\n                child.parent = self\n", "", "R1-fields/node.Node.__init__/children-parent-pairing")
+N("C20", "dict built with dict()", JS, '    return {\n        "type": node.type,\n        "value": node.value.hex(),\n        "obfuscation": node.obfuscation,\n        "start": node.start,\n        "end": node.end,\n        # Ignore parent to avoid circularity\n        "children": [node_to_dict(child) for child in node.children],\n    }', '    return dict(\n        type=node.type,\n        value=node.value.hex(),\n        obfuscation=node.obfuscation,\n        start=node.start,\n        end=node.end,\n        children=[node_to_dict(child) for child in node.children],\n    )')
+N("C20", "__eq__ via tuple comparison", NODE, "            and self.type == other.type\n            and self.value == other.value\n", "            and (self.type, self.value) == (other.type, other.value)\n")
+N("C20", "as_node positional", JS, '        type_=d["type"],\n        value=bytes.fromhex(d["value"]),\n', '        d["type"],\n        bytes.fromhex(d["value"]),\n')
+
+# ------------------------------------------------------------------ C19
+B("C19", "offset = node.start", NODE, "                offset = node.end\n        output.append(self.value[offset:])", "                offset = node.start\n        output.append(self.value[offset:])", "R-tiling")
+B("C19", "tail slice dropped", NODE, "        output.append(self.value[offset:])\n", "", "R-tiling/node.Node.flatten/tail")
+B("C19", "skip test <=", NODE, "if node.start < offset:", "if node.start <= offset:", "R-tiling/node.Node.flatten/case")
+B("C19", "skip test on end", NODE, "if node.start < offset:", "if node.end < offset:", "R-tiling/node.Node.flatten/case")
+B("C19", "raw slice from 0", NODE, "output.append(self.value[offset : node.start])", "output.append(self.value[: node.start])", "R-tiling/node.Node.flatten/case")
+B("C19", "quote test startswith", NODE, 'if node.type.endswith("string"):', 'if node.type.startswith("string"):', "R-tiling/node.Node.flatten/case")
+B("C19", "unchanged child still advances offset", NODE, "                output.append(node_data)\n                offset = node.end\n", "                output.append(node_data)\n            offset = node.end\n", "R-tiling/node.Node.flatten/case")
+B("C19", "child data before raw slice", NODE, "                output.append(self.value[offset : node.start])\n                if node.type.endswith(\"string\"):\n                    node_data = b'\"' + node_data + b'\"'\n                output.append(node_data)\n", "                if node.type.endswith(\"string\"):\n                    node_data = b'\"' + node_data + b'\"'\n                output.append(node_data)\n                output.append(self.value[offset : node.start])\n", "R-tiling/node.Node.flatten/case")
+B("C19", "flatten uses child value not its flattening", NODE, "node_data = node.flatten()", "node_data = node.value", "R-tiling/node.Node.flatten/case")
+B("C19", "squash_replace without offset update", QUERY, "            output.append(node_data)\n            offset = node.end\n", "            output.append(node_data)\n", "R-tiling/query.squash_replace/case")
+B("C19", "squash_replace compares with node.value", QUERY, "if node_data != data[node.start : node.end]:", "if node_data != node.value:", "R-tiling/query.squash_replace/case")
+B("C19", "flatten single quotes", NODE, "node_data = b'\"' + node_data + b'\"'", "node_data = b\"'\" + node_data + b\"'\"", "R-tiling/node.Node.flatten/case")
+N("C19", "output += [...]", NODE, "                output.append(self.value[offset : node.start])\n", "                output += [self.value[offset : node.start]]\n")
+N("C19", "slice bound to a temporary", NODE, "            if node_data != self.value[node.start : node.end]:\n", "            covered = self.value[node.start : node.end]\n            if node_data != covered:\n")
+N("C19", "skip test flipped", NODE, "if node.start < offset:", "if offset > node.start:")
+N("C19", "nested if instead of continue", NODE, "            if node.start < offset:\n                continue  # Only take the first of overlapping values\n            node_data = node.flatten()\n            if node_data != self.value[node.start : node.end]:\n", "            node_data = node.flatten()\n            if node.start >= offset and node_data != self.value[node.start : node.end]:\n")
